@@ -15,10 +15,9 @@ ASSUMPTIONS = [
     "alpha*beta + tau^2 to a relative error eps*kappa *in norm* of the two balanced solves: |S_kk| |a^-1 S e_k| "
     "(|d|^4/2 + |w'W^-1 w|) + |alpha| |S w| |a^-1 S w| + 2 |tau| |S_kk| |a^-1 S w| + |alpha|(|d|^4/2 + |w'W^-1 w|) "
     "+ tau^2, estimated in floats by the harness (for a nearly degenerate set the k-th components alpha, tau are "
-    "tiny next to the solutions they are read from); since M itself grows with the conditioning, the bound "
-    "3e4*eps*sqrt(kappa)*M (calibrated: worst measured 160 over 13 decades of kappa) is applied as well and the "
-    "smaller of the two is the tolerance; a third bound 2e3*eps*kappa*Mcw uses the component-wise magnitude "
-    "Mcw (sums of |v_i[k] (v_i.r)/lambda_i| over the eigenpairs of the balanced matrix; worst measured 26)",
+    "tiny next to the solutions they are read from). Two tighter empirical bounds (eps*sqrt(kappa)*M and a "
+    "component-wise eps*kappa*Mcw) are reported as ratios only: they have no error analysis behind them and "
+    "an anisotropic set showed a legitimate norm-wise rounding error beyond them (DESIGN.md 8.4)",
 ]
 
 
